@@ -285,10 +285,49 @@ fn long_session(s: &Session, st: &mut Stats) -> Result<(), Fail> {
     Ok(())
 }
 
+/// Root score as the engine's 16-bit value (mate n -> +-(32000 - plies)), for measuring swings.
+fn raw_score(i: &InfoRec) -> i32 {
+    match (i.mate, i.cp) {
+        (Some(n), _) if n > 0 => 32000 - (2 * n as i32 - 1),
+        (Some(n), _) => -32000 + 2 * (-(n as i32)),
+        (_, Some(c)) => c as i32,
+        _ => 0,
+    }
+}
+
 pub fn run(run: &mut Run) -> &'static str {
     let tier = run.tier;
     let max_depth = tier.pick(7u8, 10u8);
     run.watchdog_secs = Some(tier.pick(240, 1800));
+    // tool mode (VERIF_MINE_SWINGS=<cases>): search generated positions for root scores that differ by
+    // more than 32767 between consecutive iterations from the fifth on (a clearly lost side finds a
+    // mate, or the reverse) and print them; the finds are kept in roots_data::SCORE_SWINGS
+    if let Ok(n) = std::env::var("VERIF_MINE_SWINGS") {
+        let cases: u64 = n.parse().unwrap_or(20_000);
+        run.watchdog_secs = Some(3600);
+        run.proptest_part("mine_swings", RULE, tape(16..120).prop_map(Case::Tape), cases, move |c: &Case, st: &mut Stats| {
+            let Case::Tape(data) = c else { return Ok(()) };
+            let mut t = Tape::new(data);
+            let Some((fen, moves, pos, _)) = gen_game(&mut t, 2, 10) else { return Ok(()) };
+            if pos.legal_moves().is_empty() {
+                return Ok(());
+            }
+            let mut spec = SearchSpec { fen, moves, limit: Limit::Depth(8) };
+            tame(&mut spec);
+            let Some((_, game)) = build(&spec) else { return Ok(()) };
+            let mut state = PersistentState::new(2);
+            let Ok(out) = run_search(&game, &mut state, &spec.limit, 0) else { return Ok(()) };
+            st.eval();
+            for w in out.infos.windows(2) {
+                if w[1].depth >= 5 && (raw_score(&w[1]) - raw_score(&w[0])).abs() > 32767 {
+                    println!("SWING depth {} {} -> {} : {}", w[1].depth, raw_score(&w[0]), raw_score(&w[1]), pos.to_fen());
+                    st.class("swing_found");
+                }
+            }
+            Ok(())
+        });
+        return RULE;
+    }
     let cases = tier.pick(4_000, 60_000);
     let strat = tape(16..160).prop_map(Case::Tape);
     run.proptest_part("searches", RULE, strat, cases, move |c: &Case, st: &mut Stats| match c {
